@@ -58,7 +58,7 @@ BUILT: dict[str, dict[str, str]] = {
         ref="DESIGN.md 3/C12",
     ),
     "C06": dict(
-        technique="model-based property testing (Hypothesis): generated multi-worker logs (issuer per call, intruder records inside a batch, lagging observers, snapshots, late joiners) replayed by several JournalStorage objects; every call and every worker's final state compared with ModelStorage applied in log order and with a fresh replay",
+        technique="model-based property testing (Hypothesis): generated multi-worker logs (issuer per call, intruder records inside a batch, lagging observers, snapshots, late joiners, workers that are pickled copies of another worker) replayed by several JournalStorage objects; every call and every worker's final state compared with ModelStorage applied in log order and with a fresh replay",
         category="exploration",
         text="Generated-history search over (log, batch split, snapshot point, issuer) tuples: all batch splits a correct backend can produce are reached through observer workers and an append hook that places another worker's record between an issuer's append and read; convergence is checked against a reference model, pairwise between workers and against a replay from record 0, on the file backend (both locks) and fakeredis with small snapshot intervals.",
         note="fakeredis for Redis; the hook is a plain BaseJournalBackend wrapper. Thread-level interleavings inside one JournalStorage are C03's subject.",
@@ -79,17 +79,17 @@ BUILT: dict[str, dict[str, str]] = {
         ref="DESIGN.md 3/C09",
     ),
     "C13": dict(
-        technique="metamorphic property testing (Hypothesis): generated objective programs x seeded samplers x pruners run twice -- as given and with a generated subset of objectives flipped (direction toggled, values and reports negated, thresholds mirrored); per-trial params / states / reported steps / negated values and best trial(s) must coincide",
+        technique="metamorphic property testing (Hypothesis): generated objective programs x seeded samplers x pruners run twice -- as given and with a generated subset of objectives flipped (direction toggled, values and reports negated, thresholds mirrored); per-trial params / states / reported steps / negated values and best trial(s) must coincide; plus pruner-only interleaved report/should_prune histories run as given and mirrored",
         category="exploration",
-        text="Generated-configuration metamorphic search over every sampler x pruner pair reachable offline and every subset of flipped objectives, with pairwise-distinct values and dyadic reports so that exact mirroring is well defined. Absence of counterexamples in the explored region only.",
+        text="Generated-configuration metamorphic search over every sampler x pruner pair reachable offline and every subset of flipped objectives, with pairwise-distinct values and dyadic reports (NaN and both infinities among them) so that exact mirroring is well defined; thousands of pruner-only histories per run; a few dozen GP-sampler pairs in the quick tier. Absence of counterexamples in the explored region only.",
         note="In-memory storage; GA samplers under HyperbandPruner are not generated (they crash independently of direction).",
         ref="DESIGN.md 3/C13",
     ),
     "C10": dict(
-        technique="property-based testing (Hypothesis): generated adversarial distributions x trial plans (changing ranges, enqueued / fixed values, rejected-then-retried suggestions, pruned / failed trials) x every sampler in independent and relative mode x four backends; membership judged by an exact-rational oracle, stability and read-back equality checked inside and after the objective",
+        technique="property-based testing (Hypothesis): generated adversarial distributions (incl. step grids of 5e7-2e9 cells and steps of 1e-10) x trial plans (changing ranges and steps for one name, enqueued / fixed values, rejected-then-retried suggestions, pruned / failed trials) x every sampler in independent and relative mode x four backends; membership judged by an exact-rational oracle, stability and read-back equality checked inside and after the objective",
         category="exploration",
         text="Generated-input search: every suggest_* return value of thousands of studies is tested for membership in the declared domain (exact arithmetic for step grids, 4+|log| ulps for log floats), for stability on a second call, for precedence of enqueued / fixed values, and against trial.params and the backend's study.trials. Absence of counterexamples in the explored region only.",
-        note="Ordinary magnitudes; GA samplers are not combined with log ranges a few ulps wide (their rejection loop does not terminate there: recorded in DESIGN.md as a defect outside the listed properties); GP in the thorough tier only.",
+        note="|bounds| <= 1e9; GA samplers are not combined with log ranges a few ulps wide (their rejection loop does not terminate there: recorded in DESIGN.md as a defect outside the listed properties); GP in the thorough tier only.",
         ref="DESIGN.md 3/C10",
     ),
     "C02": dict(
@@ -100,7 +100,7 @@ BUILT: dict[str, dict[str, str]] = {
         ref="DESIGN.md 3/C02",
     ),
     "C20": dict(
-        technique="property-based testing (Hypothesis): generated read/write sequences issued by two persistent threads over every object-returning getter and every writer of the Study and storage APIs on seven storage configurations; pickle-at-read vs pickle-after-every-later-write byte comparison; poisoning of deep copies",
+        technique="property-based testing (Hypothesis): generated read/write sequences issued by two persistent threads over every object-returning getter and every writer of the Study and storage APIs (incl. optimize() with objectives that read the study and end in every way) on seven storage configurations; pickle-at-read vs pickle-after-every-later-write byte comparison; poisoning of deep copies",
         category="exploration",
         text="Generated-history search over the getter x later-writer x backend product (the coverage matrix is in the evidence): every handed-out object must stay byte-identical under all later writes, and mutating deep-copied results must never show up in later reads.",
         note="Storage-level study-attribute dictionaries of the in-memory/journal storages are out of scope (the statement names dictionaries obtained from a study); thread interleavings inside a call are C03's subject.",
@@ -121,23 +121,23 @@ BUILT: dict[str, dict[str, str]] = {
         ref="DESIGN.md 2.3, 2.4, 3/C07",
     ),
     "C05": dict(
-        technique="fault enumeration + property-based testing (Hypothesis): generated (pre-history, victim calls, continuation) scenarios; the victim's system-call trace on the journal file is enumerated completely as crash points incl. every byte offset of short record writes; SQLite victims are real forked processes SIGKILLed at SQL event boundaries; ModelStorage before/after oracle",
+        technique="fault enumeration + property-based testing (Hypothesis): generated (pre-history, victim calls, continuation) scenarios; the victim's system-call trace on the journal file is enumerated completely as crash points incl. every byte offset of short record writes; SQLite victims are real forked processes SIGKILLed at SQL event boundaries, incl. every event of the first worker's schema creation and version stamp on a new file; ModelStorage before/after oracle",
         category="fault_enumeration",
-        text="Per scenario all crash points of the victim are enumerated (journal: every system-call boundary before/after + torn writes at every byte of records up to 200 bytes; SQLite quick tier: a generated sample of event boundaries, thorough tier: all). After each crash the survivors' view must equal the model after the acknowledged calls or after those plus the interrupted call, and the continuation must behave as the model says. Scenarios themselves are sampled.",
+        text="Per scenario all crash points of the victim are enumerated (journal: every system-call boundary before/after + torn writes at every byte of records up to 200 bytes; SQLite quick tier: a generated sample of event boundaries, thorough tier: all; the set-up of a new database file: all, in both tiers). After each crash the survivors' view must equal the model after the acknowledged calls or after those plus the interrupted call, and the continuation must behave as the model says. Scenarios themselves are sampled.",
         note="Crash = process death (no power loss); the dead worker's cleanup code is prevented from running; SQLite's own journal is trusted.",
         ref="DESIGN.md 2.4, 3/C05",
     ),
     "C04": dict(
-        technique="schedule enumeration + property-based testing (Hypothesis): generated queue scenarios (enqueue / add WAITING / delete-recreate / pre-owned RUNNING trial) and worker scripts run under a deterministic line-level scheduler on nine thread / 'process' layouts; all single-preemption schedules (or a stratified sample) plus generated multi-preemption schedules; exactly-once and verbatim-parameter oracle incl. a sequential drain",
+        technique="schedule enumeration + property-based testing (Hypothesis): generated queue scenarios (enqueue / add WAITING / imported finished trials / delete-recreate / pre-owned RUNNING trial / caller re-using its dicts) and worker scripts (RandomSampler or multivariate TPE) run under a deterministic line-level scheduler on nine thread / 'process' layouts ('processes' share one thread ident like forked workers and may hold pickled copies of one journal storage); the plain two-workers-one-queued-trial race is enumerated on every layout; all single-preemption schedules (or a stratified sample) plus generated multi-preemption schedules; exactly-once and verbatim-parameter oracle incl. a sequential drain",
         category="exploration",
-        text="For each generated scenario the interleavings with one preemption at any source line of the storage layer / the ask path (and any system call of the journal file backend) are executed -- completely in the thorough tier, as a stratified sample of 50-90 switch points in the quick tier -- and judged: no trial id returned twice, no queued trial skipped, enqueued values delivered verbatim, number and user attributes kept.",
+        text="For each generated scenario the interleavings with one preemption at any source line of the storage layer / the ask path (and any system call of the journal file backend) are executed -- completely in the thorough tier, as a stratified sample of 50-90 switch points in the quick tier -- and judged: no trial id returned twice, no queued trial skipped or lost, enqueued values (as of enqueue time) delivered verbatim, number and user attributes kept.",
         note="Line-granular preemption, simulated processes, SQLite busy timeout 0 (documented 'database is locked' errors are allowed outcomes).",
         ref="DESIGN.md 2.3, 3/C04",
     ),
     "C19": dict(
-        technique="schedule enumeration + property-based testing (Hypothesis): generated heartbeat histories (stale / fresh / no-beat / finished trials, retry chains several generations deep) and worker scripts (fail_stale_trials, ask) under the deterministic line-level scheduler on SQLite thread / 'process' layouts, with worker death at generated yield points; at-most-once oracle on FAIL transitions, callback invocations and retries",
+        technique="schedule enumeration + property-based testing (Hypothesis): generated heartbeat histories (stale / fresh / no-beat / finished trials, retry chains several generations deep) and worker scripts (fail_stale_trials, ask, the slow owner completing a stale trial) in a generated local time zone under the deterministic line-level scheduler on SQLite thread / 'process' layouts, with worker death at generated yield points; at-most-once oracle on FAIL transitions, callback invocations and retries",
         category="exploration",
-        text="Per generated scenario: single-preemption schedules (quick: stratified sample of 60 switch points; thorough: all), generated multi-preemption schedules, and death points of one worker; after a final sweep by a live worker every stale trial must be FAIL, the callback must have run at most once per failure, at most one correct retry per failure and none beyond max_retry, healthy trials untouched.",
+        text="Per generated scenario: single-preemption schedules (quick: stratified sample of 60 switch points; thorough: all), generated multi-preemption schedules, and death points of one worker; after a final sweep by a live worker every stale trial must be FAIL, the callback must have run at most once per failure, at most one correct retry per failure and none beyond max_retry, healthy trials untouched; a stale trial its owner completes meanwhile is either COMPLETE without any failure handling or FAIL with the owner's call rejected.",
         note="Heartbeat age is set by SQL, not by waiting; line-granular preemption; simulated processes; busy timeout 0.",
         ref="DESIGN.md 2.3, 3/C19",
     ),
